@@ -9,6 +9,7 @@ import (
 	"io"
 	"net"
 	"sync"
+	"sync/atomic"
 	"syscall"
 )
 
@@ -540,3 +541,18 @@ func badParkSelect(a, b chan int) int {
 }
 
 func badParkWaitGroup(wg *sync.WaitGroup) { wg.Wait() }
+
+type memoBox struct {
+	last atomic.Pointer[hdr]
+	n    atomic.Int64
+}
+
+func badMutInputAtomicMemo(b *memoBox, h *hdr) *hdr {
+	if p := b.last.Load(); p != nil {
+		return p
+	}
+	b.last.Store(h)
+	return h
+}
+
+func okMutInputAtomicLoadOnly(b *memoBox) int64 { return b.n.Load() }
